@@ -1,6 +1,6 @@
 (* Correspondence cases for C14: the harness writes (input, observed implementation output);
    [mismatches14] returns the indices where the model disagrees. *)
-From KV Require Export Yaml.Fns.
+From KV Require Export Yaml.Fns Yaml.FieldSpec.
 
 Inductive op14 :=
 | OLookup
@@ -8,7 +8,14 @@ Inductive op14 :=
 | OPut (name : string) (v : node)
 | OPutNC (name : string) (v : node)
 | OClear (name : string)
-| OPutScalar (v : node).
+| OPutScalar (v : node)
+| OFieldSpec (fs : fieldspec) (ck : option kind) (ct : tag) (sv : setval14)
+| OFsSlice (l : list fieldspec) (ck : option kind) (ct : tag) (sv : setval14)
+(* Filter.SetValue used by the harness (a fresh value node per invocation) *)
+with setval14 :=
+| SVScalar (v : node)                 (* FieldSetter{Value: v} *)
+| SVEntry (name : string) (v : node)  (* FieldSetter{Name: name, Value: v} *)
+| SVNone.                             (* records the node, changes nothing *)
 
 Record case14 := mk14 {
   c_op : op14;
@@ -33,13 +40,22 @@ Definition opt_node_eqb (a b : option node) : bool :=
   | _, _ => false
   end.
 
-(* the node FieldSetter returns: the stored value, or (null value = Clear) the removed one *)
-Definition set_ret (name : string) (v m m' : node) : option node :=
+(* the node FieldSetter returns: the stored value, or (null value = Clear) the removed one.
+   On a null node the value is appended to the (invisible) Content of the null scalar and returned
+   as it is after the forced YAML-1.1 quoting. *)
+Definition set_ret (nonstr : string -> bool) (name : string) (v m m' : node) : option node :=
   if is_null v then match m with Map kvs => find_field name kvs | _ => None end
   else match m' with
        | Map kvs => find_field name kvs
-       | _ => Some v
+       | _ => Some (quote11 nonstr v)
        end.
+
+Definition sv_fn (nonstr : string -> bool) (sv : setval14) : node -> res node :=
+  match sv with
+  | SVScalar v => set_scalar (Some v)
+  | SVEntry name v => set_field nonstr name (Some v) false
+  | SVNone => fun x => Ok x
+  end.
 
 (* model outcome: document afterwards and the node the pipe returned *)
 Definition run14 (c : case14) : res (node * option node) :=
@@ -52,12 +68,12 @@ Definition run14 (c : case14) : res (node * option node) :=
   | OPut name v =>
       do r <- walk (Some KMap) ps
                 (fun m => do m' <- set_field nonstr name (Some v) false m;
-                          Ok (m', set_ret name v m m')) d;
+                          Ok (m', set_ret nonstr name v m m')) d;
       Ok (fst r, match snd r with Some (Some x) => Some x | _ => None end)
   | OPutNC name v =>
       do r <- walk None ps
                 (fun m => do m' <- set_field nonstr name (Some v) false m;
-                          Ok (m', set_ret name v m m')) d;
+                          Ok (m', set_ret nonstr name v m m')) d;
       Ok (fst r, match snd r with Some (Some x) => Some x | _ => None end)
   | OClear name =>
       do r <- walk None ps
@@ -71,6 +87,10 @@ Definition run14 (c : case14) : res (node * option node) :=
       do r <- walk (Some KScalar) ps
                 (fun x => do x' <- set_scalar (Some v) x; Ok (x', x')) d;
       Ok r
+  | OFieldSpec fs ck ct sv =>
+      do d' <- fs_apply ck ct (sv_fn nonstr sv) fs d; Ok (d', None)
+  | OFsSlice l ck ct sv =>
+      do d' <- fsslice_apply ck ct (sv_fn nonstr sv) l d; Ok (d', None)
   end.
 
 Definition agree14 (c : case14) : bool :=
